@@ -453,6 +453,7 @@ func init() {
 		Assume: []string{"the log answers every range request with a non-empty prefix or a transient error and faults stop after a per-range budget (the property's environment)", "all entries are parseable; with PrecertOnly X.509 entries are by design not handed to the matcher", "the race detector sees only the schedules that occur (coarse schedule is steered by seeded simulated delays)"},
 		FaultKinds: []string{"fault.prefix_reply", "fault.http_500", "fault.http_other_status", "fault.transport_error", "fault.broken_body", "probe.full_reply", "probe.entries_scanned", "probe.race_reports", "probe.race_in_harness"},
 		NotInjected: "empty replies and more-than-requested replies are outside the property's environment; no storage or crash-restart in the scanner",
+		EngineB:     true,
 		Gen:         genC17, New: func() any { return &c17Scenario{} }, Exec: execC17, Shrink: shrinkC17,
 		QuickRuns: 1600, ThoroughRuns: 160000,
 	})
